@@ -29,6 +29,9 @@ inline double dbd_level_energy_nominal(const std::string & n, int lev)
 
 using namespace vf;
 
+static ref::Lib * g_ref = nullptr; // the flavour of the reference currently being driven
+#define R (*g_ref)
+
 // ------------------------------------------------------------------ comparison
 struct PEvent // port event, flattened
 {
@@ -85,7 +88,7 @@ static Cmp compare(const PEvent & pe, const ref::Event & re, bool is_y90)
       } else {
         if (!(same_mom(a, b2) && same_mom(a2, b))) fail("momentum", "pair momenta differ at particle " + std::to_string(i));
       }
-      if (!same_time(a.t, b.t) || !same_time(a2.t, b2.t)) fail("time", "pair times differ at particle " + std::to_string(i));
+      if (!y90pair && (!same_time(a.t, b.t) || !same_time(a2.t, b2.t))) fail("time", "pair times differ at particle " + std::to_string(i));
       c.pair_swaps++; i++; continue;
     }
     if (a.code != b.code) { fail("species", "species differ at particle " + std::to_string(i) + " port=" + std::to_string(a.code) + " ref=" + std::to_string(b.code)); return c; }
@@ -189,7 +192,7 @@ static Profile profile_for(uint64_t h)
 // ------------------------------------------------------------------ running one event on both sides
 struct Sides
 {
-  PEvent pe; ref::Event re; size_t npos = 0, rpos = 0; bool p_exc = false, r_over = false, p_over = false; std::string exc;
+  PEvent pe; ref::Event re; size_t npos = 0, rpos = 0; bool p_exc = false, r_over = false, p_over = false; std::string exc; int sub50 = 0;
 };
 
 static const size_t DEV_LIMIT = 20000;
@@ -215,35 +218,48 @@ static void port_event(const Config & c, DbdState * st, TapeRandom & r, Sides & 
   catch (std::exception & e) { s.p_exc = true; s.exc = e.what(); }
   s.npos = r.pos; s.pe = flatten(ev);
 }
-static void ref_event(const Config & c, TapeRandom & r, Sides & s)
+static void ref_event(ref::Lib & lib, const Config & c, TapeRandom & r, Sides & s)
 {
-  ref::g_rnd = &r; ref::clear_event();
+  g_ref = &lib;
+  R.restore(1);
+  ref::g_rnd = &r; R.clear_event(); ref::g_sub50 = 0;
   try {
-    ref::call(c.kind == "bkg" ? 2 : 1, c.refname, c.level, c.mode, 1);
+    R.call(c.kind == "bkg" ? 2 : 1, c.refname, c.level, c.mode, 1);
   } catch (TapeOverrun &) { s.r_over = true; }
-  s.rpos = r.pos; s.re = ref::get_event();
+  s.rpos = r.pos; s.re = R.get_event(); s.sub50 = ref::g_sub50;
 }
 
-struct Outcome { bool ok = true; bool skip = false; std::string cls, msg; Cmp cmp; Sides s; };
+struct Outcome { bool ok = true; bool skip = false; bool excused_constants = false; std::string cls, msg; Cmp cmp; Sides s; };
 
-static Outcome run_event(const Config & c, DbdState * st, Tape & tape, double eps = 0, uint64_t pseed = 0)
+static Outcome run_event_vs(ref::Lib & lib, const Config & c, DbdState * st, Tape & tape, double eps, uint64_t pseed)
 {
   Outcome o;
   TapeRandom rp(tape, 0, DEV_LIMIT), rr(tape, 0, DEV_LIMIT);
   rp.scale_eps = rr.scale_eps = eps; rp.pert_seed = rr.pert_seed = pseed;
   port_event(c, st, rp, o.s);
-  ref_event(c, rr, o.s);
+  ref_event(lib, c, rr, o.s);
   if (o.s.p_exc) { o.ok = false; o.cls = "exception"; o.msg = o.s.exc; return o; }
   if (o.s.p_over && o.s.r_over) { o.skip = true; return o; }
   if (o.s.p_over != o.s.r_over) { o.ok = false; o.cls = "overrun"; o.msg = o.s.p_over ? "port exceeds deviate budget, reference does not" : "reference exceeds deviate budget, port does not"; return o; }
   o.cmp = compare(o.s.pe, o.s.re, c.refname == "Y90");
   if (!o.cmp.ok) { o.ok = false; o.cls = o.cmp.cls; o.msg = o.cmp.msg; return o; }
-  if (o.s.npos != o.s.rpos) { o.ok = false; o.cls = "ndeviates"; o.msg = "deviates consumed port=" + std::to_string(o.s.npos) + " ref=" + std::to_string(o.s.rpos); }
+  if (o.s.npos != o.s.rpos && !o.cmp.y90) { o.ok = false; o.cls = "ndeviates"; o.msg = "deviates consumed port=" + std::to_string(o.s.npos) + " ref=" + std::to_string(o.s.rpos); }
+  return o;
+}
+
+// Constants rule: a mismatch against the strict reference is excused iff the port agrees with the harmonised
+// flavour (pi, 2pi and the electron mass inside fermi at the port's precision) on the same tape.
+static Outcome run_event(const Config & c, DbdState * st, Tape & tape, double eps = 0, uint64_t pseed = 0)
+{
+  Outcome o = run_event_vs(ref::strict(), c, st, tape, eps, pseed);
+  if (o.ok || o.skip || o.cls == "exception") return o;
+  Outcome h = run_event_vs(ref::harmonised(), c, st, tape, eps, pseed);
+  if (h.ok && !h.skip) { h.excused_constants = true; return h; }
   return o;
 }
 
 // ------------------------------------------------------------------ dbd init on both sides
-struct InitOut { bool ok = true; std::string cls, msg; int ier_p = 0, ier_r = 0; bool p_exc = false; std::string exc; double toall_p = 1, toall_r = 1; };
+struct InitOut { bool ok = true; std::string cls, msg; int ier_p = 0, ier_r = 0; bool p_exc = false; std::string exc; double toall_p = 1, toall_r = 1, toall_h = 1; bool toall_excused = false; };
 
 static InitOut init_dbd(const Config & c, DbdState & st, Tape & itape)
 {
@@ -257,17 +273,33 @@ static InitOut init_dbd(const Config & c, DbdState & st, Tape & itape)
   try {
     bxdecay0::genbbsub(rp, dummy, bxdecay0::GENBBSUB_I2BBS_DBD, c.name, c.level, c.mode, bxdecay0::GENBBSUB_ISTART_INIT, o.ier_p, st.pars);
   } catch (std::exception & e) { o.p_exc = true; o.exc = e.what(); o.ier_p = -1; }
-  ref::set_params(c.has_window ? c.ebb1 : 0.0, c.has_window ? c.ebb2 : 4.3);
-  ref::set_nme(c.nme);
-  ref::g_rnd = &rr; ref::clear_event();
-  o.ier_r = ref::call(1, c.refname, c.level, c.mode, -1);
+  g_ref = &ref::strict();
+  R.restore(0);
+  R.set_params(c.has_window ? c.ebb1 : 0.0, c.has_window ? c.ebb2 : 4.3);
+  R.set_nme(c.nme);
+  ref::g_rnd = &rr; R.clear_event();
+  g_ref = &ref::strict();
+  o.ier_r = R.call(1, c.refname, c.level, c.mode, -1);
+  R.snapshot(1);
+  ref::Range rg = R.get_range();
+  {
+    TapeRandom rh(itape, 0, DEV_LIMIT);
+    g_ref = &ref::harmonised();
+    R.restore(0);
+    R.set_params(c.has_window ? c.ebb1 : 0.0, c.has_window ? c.ebb2 : 4.3); R.set_nme(c.nme);
+    ref::g_rnd = &rh; R.clear_event();
+    int ier_h = R.call(1, c.refname, c.level, c.mode, -1);
+    R.snapshot(1);
+    if (ier_h == 0) o.toall_h = R.get_range().toall;
+    g_ref = &ref::strict();
+  }
   if ((o.ier_p != 0) != (o.ier_r != 0)) { o.ok = false; o.cls = "accept"; o.msg = "init port ier=" + std::to_string(o.ier_p) + (o.p_exc ? " (" + o.exc + ")" : "") + " ref ier=" + std::to_string(o.ier_r); return o; }
   if (o.ier_r != 0) return o;
-  ref::Range rg = ref::get_range();
   o.toall_p = st.pars.toallevents; o.toall_r = rg.toall;
   if (st.pars.levelE != rg.levelE) { o.ok = false; o.cls = "levelE"; o.msg = "levelE port=" + std::to_string(st.pars.levelE) + " ref=" + std::to_string(rg.levelE); return o; }
   if (st.pars.chdspin != rg.chdspin) { o.ok = false; o.cls = "chdspin"; o.msg = "chdspin port=" + st.pars.chdspin + " ref=" + rg.chdspin; return o; }
-  if (!(std::fabs(o.toall_p - o.toall_r) <= 1e-9 * std::fabs(o.toall_r))) { o.ok = false; o.cls = "toallevents"; o.msg = "toallevents port=" + jnum(o.toall_p) + " ref=" + jnum(o.toall_r); return o; }
+  if (!(std::fabs(o.toall_p - o.toall_r) <= 1e-9 * std::fabs(o.toall_r)) && std::fabs(o.toall_p - o.toall_h) <= 2e-7 * std::fabs(o.toall_h)) o.toall_excused = true; // constants rule
+  else if (!(std::fabs(o.toall_p - o.toall_r) <= 1e-9 * std::fabs(o.toall_r))) { o.ok = false; o.cls = "toallevents"; o.msg = "toallevents port=" + jnum(o.toall_p) + " ref=" + jnum(o.toall_r) + " ref(harmonised)=" + jnum(o.toall_h); return o; }
   if (rp.pos != rr.pos) { o.ok = false; o.cls = "init-ndeviates"; o.msg = "deviates consumed by init port=" + std::to_string(rp.pos) + " ref=" + std::to_string(rr.pos); return o; }
   return o;
 }
@@ -329,7 +361,7 @@ static void shrink(const Config & c, DbdState * st, Tape & tape, const std::stri
 
 static void report_failure(Ctx & cx, const Config & c, DbdState * st, Tape & tape, const Tape * itape, Outcome o)
 {
-  std::string sig = cx.prop + "|" + c.name + "|L" + std::to_string(c.level) + "|M" + std::to_string(c.mode) + "|" + o.cls + (o.cmp.sub50 ? "|sub50eV" : "");
+  std::string sig = cx.prop + "|" + c.name + "|L" + std::to_string(c.level) + "|M" + std::to_string(c.mode) + "|" + o.cls + (o.s.sub50 ? "|ref-fermi-50eV-clamp" : "");
   std::string kid = cx.known.match(cx.prop, sig);
   if (!kid.empty()) { cx.rep.known[kid]++; return; }
   int & nf = cx.fail_per_cfg[c.key() + o.cls];
@@ -367,9 +399,14 @@ static void init_bkg(const Config & c)
   bxdecay0::event ev; int ier = 0; bxdecay0::bbpars pars;
   bxdecay0::genbbsub(r, ev, bxdecay0::GENBBSUB_I2BBS_BACKGROUND, c.name, -1, -1, bxdecay0::GENBBSUB_ISTART_INIT, ier, pars);
   if (ier != 0) throw std::runtime_error("port refuses published background name " + c.name);
-  ref::set_params(0, 4.3); ref::g_rnd = &r;
-  int ierr = ref::call(2, c.refname, 0, 0, -1);
-  if (ierr != 0) throw std::runtime_error("reference refuses name " + c.refname);
+  for (ref::Lib * lib : {&ref::strict(), &ref::harmonised()}) {
+    g_ref = lib;
+    R.restore(0);
+    R.set_params(0, 4.3); ref::g_rnd = &r;
+    int ierr = R.call(2, c.refname, 0, 0, -1);
+    if (ierr != 0) throw std::runtime_error("reference refuses name " + c.refname);
+    R.snapshot(1);
+  }
 }
 
 static void one_event_case(Ctx & cx, const Config & c, DbdState * st, const std::vector<double> & dict, uint64_t tseed, const Tape * itape, const std::string & wclass)
@@ -378,6 +415,7 @@ static void one_event_case(Ctx & cx, const Config & c, DbdState * st, const std:
   Outcome o = run_event(c, st, tape);
   cx.rep.evaluations++;
   if (o.skip) { cx.rep.count("skipped_both_overrun"); return; }
+  if (o.excused_constants) cx.rep.count("excused_by_constants_rule");
   std::string ps = path_sig(o.s.pe);
   cx.rep.label("profile:" + std::to_string((int)(tape.prof.p_plain * 100)));
   if (o.cmp.pair_swaps) cx.rep.count("admissible_pair_order_swaps");
@@ -429,7 +467,10 @@ static std::vector<DbdPoint> c02_points_quick()
   std::vector<DbdPoint> v;
   for (auto & n : catalog::dbd_published())
     for (int lev = 0; lev <= catalog::dbd_max_level(n); lev++)
-      for (int m = 1; m <= 20; m++) v.push_back({n, lev, m});
+      for (int m = 1; m <= 20; m++) {
+        if (m == 20 && lev > 0) continue; // README: quadruple beta only to the ground state (the reference silently forces ilevel=0)
+        v.push_back({n, lev, m});
+      }
   return v;
 }
 
@@ -439,6 +480,7 @@ static void run_dbd_config(Ctx & cx, const Config & c, uint64_t seed, int nev, c
   Tape itape; itape.seed = mix(seed, std::hash<std::string>()(c.key())); itape.prof = Profile();
   InitOut io = init_dbd(c, st, itape);
   cx.rep.evaluations++;
+  if (io.toall_excused) cx.rep.count("toallevents_excused_by_constants_rule");
   if (!io.ok) {
     Outcome o; o.ok = false; o.cls = io.cls; o.msg = io.msg;
     std::string sig = cx.prop + "|" + c.name + "|L" + std::to_string(c.level) + "|M" + std::to_string(c.mode) + "|" + io.cls;
@@ -545,6 +587,7 @@ int main(int argc, char ** argv)
   FILE * res = fdopen(out_fd, "w");
   int rc = 0;
   try {
+    g_ref = &ref::strict();
     if (a.has("replay")) {
       // replay prints to the real stdout
       fflush(stdout); dup2(out_fd, 1);
